@@ -11,12 +11,22 @@ TECHNIQUE = "Lean 4 theorems on the heading logic over the regenerated serving-p
 LEVEL_TEXT = ("The serving-phrase pattern is regenerated from markdown.py and the documented forms from markdown_reference.rst on every run; theorems in Lean: "
               "every documented form is accepted by the pattern (decided over the generated tables), the split is at the leftmost serving suffix, only a "
               "first, level-1, markup-free heading yields a title; the heading decision (title, servings, kind) is compared exactly with "
-              "compile_markdown on generated headings, using the heading text the renderer actually saw.")
-LEVEL_NOTE = ("Partial: which element is the first heading and how its text is rendered is marko's business (observed per case, not modelled); html.unescape "
-              "is modelled for the references marko emits. The heading rule is fully characterised (C18b): headingInfo_spec / headingInfo_none_iff (title and count iff the text "
+              "compile_markdown on generated headings, using the heading text the renderer actually saw. From the document text (C18c): firstHeadingX / docTitle "
+              "model which element is the first heading (block scan to the first ATX or setext heading through blank lines, paragraphs, fenced and indented "
+              "code) and how its inline text is rendered (backslash escapes, character references under marko's reference pattern with CPython's html5 tables "
+              "regenerated on every run, html.escape) on the sub-language H (decidable predicate inH); doc_title_documented_form(_after / _closing), "
+              "doc_title_setext_documented_form: for every title text that decodes to plain text D, every documented phrase in any letter case and spacing, "
+              "every N and every continuation of the document, the title is D and the serving count N - with no observed hypothesis; "
+              "doc_title_only_first_heading, doc_title_none_cases (no heading, lower level, markup: no count); the model is compared exactly with "
+              "compile_markdown (level, rendered heading text, title, servings, rendered count) on generated documents, and random instances of the "
+              "theorems are run on the real code.")
+LEVEL_NOTE = ("Partial: outside the sub-language H (containers, tabs, HTML blocks, thematic breaks or link reference definitions before the first heading; lone special "
+              "characters, links, markup together with backslashes in it) which element is the first heading and how its text is rendered is marko's business "
+              "(observed per case, not modelled); inside H it is the model firstHeadingX, tied to marko by exact correspondence (validated, not proved; its "
+              "'certainly markup' class rests on an unformalised argument about marko's token priorities). The heading rule is fully characterised (C18b): headingInfo_spec / headingInfo_none_iff (title and count iff the text "
               "splits as title, white space, accepted phrase, white space, digits, optional white space at the left-most such split), uniqueness, invariance under "
               "trailing white space and letter case, phrase_needs_preceding_space. Trusted: Lean kernel, translator of the pattern (it rejects patterns outside its template).")
-LEAN_MODULES = ["RecipeGrid.Props.C18", "RecipeGrid.Props.C18b"]
+LEAN_MODULES = ["RecipeGrid.Props.C18", "RecipeGrid.Props.C18b", "RecipeGrid.Props.C18c"]
 SOURCES = ["recipe_grid/markdown.py", "docs/source/markdown_reference.rst"]
 RULE = ("headings from a word pool containing 'for', digits, punctuation, entities, markup, every documented phrase form in random case and spacing, ATX and "
         "setext, levels 1-3, first or preceded by other content / other headings; non-trivial = contains a serving phrase; distinct = distinct documents")
@@ -45,7 +55,31 @@ def real_info(mr):
     return ("scalable", mr.title, mr.servings)
 
 
+def document_correspondence(run):
+    """C18c: the title, serving count and first heading compile_markdown reads from a document against firstHeadingX / docTitle, html.unescape under
+    marko's reference pattern against htmlUnescape, and random instances of the theorems on the real code (harness/mdheading_corr.py, its own process)"""
+    import os
+    import subprocess
+    import sys
+    here = os.path.dirname(os.path.dirname(os.path.abspath(__file__)))
+    n1, n2 = ("1500", "800") if run.tier == "quick" and not getattr(run, "escalated", False) else ("12000", "6000")
+    p = subprocess.run([sys.executable, os.path.join(here, "mdheading_corr.py"), str(20260930 + run.seed), n1, n2], stdout=subprocess.PIPE,
+                       stderr=subprocess.STDOUT, text=True, timeout=3000, env=dict(os.environ, PYTHONPATH=os.pathsep.join(x for x in sys.path if x)))
+    m = re.search(r"documents: (\d+), in H: (\d+)", p.stdout)
+    m2 = re.search(r"^disagreements: (\d+)", p.stdout, re.M)
+    if not m or not m2:
+        run.disagree("md-title", "harness/mdheading_corr.py", p.stdout[-800:], "n/a")
+        return
+    run.groups["compile_markdown title / servings / first heading vs docTitle / firstHeadingX (documents of H)"] += int(m.group(2))
+    run.groups["documents outside H (no claim)"] += int(m.group(1)) - int(m.group(2))
+    run.evaluations += int(m.group(2))
+    if int(m2.group(1)):
+        for line in p.stdout.split("disagreements:")[1].splitlines()[1:8]:
+            run.disagree("md-title", line.strip()[:300], "real", "model")
+
+
 def correspondence(run):
+    document_correspondence(run)
     docs = [gen_heading_doc(run.rng) for _ in range(run.budget(1500, 30000))]
     reqs, meta = [], []
     for doc in docs:
